@@ -66,8 +66,10 @@ func c05Scenarios(tier core.Tier) []scenario {
 	return []scenario{
 		{Name: "c05.bad", Universe: "U-3way", Depth: 5 + d, Orcs: orcs,
 			Menu: chain.Menu{Recv: true, Sync: true, Play: true, Submit: []string{"tS", "tA2", "tD2"}, Mine: 1, Query: true, Blocks: bad}},
-		{Name: "c05.fault", Universe: "U-3way-honest", Depth: 4 + d, MaxCost: 1 + d/2, Orcs: orcs,
-			Menu: chain.Menu{Recv: true, Sync: true, Play: true, Submit: []string{"tS"}, Mine: 1, Fail: 3, Blocks: flt}},
+		// storage faults at the k-th write of an event; depth 6 reaches a fork switch
+		// under fault (recv a1, sync, recv b1, recv b2, failK/sync: undo + two replays)
+		{Name: "c05.fault", Universe: "U-3way-honest", Depth: 6 + d, MaxCost: 1 + d/2, Orcs: orcs,
+			Menu: chain.Menu{Recv: true, Sync: true, Play: true, Submit: []string{"tS"}, Mine: 1, Fail: 5, Blocks: flt}},
 		{Name: "c05.kv", Universe: "U-kv", Depth: 5 + d, Orcs: orcs,
 			Menu: chain.Menu{Recv: true, Sync: true, Play: true, WalkSome: true, Submit: []string{"pW1", "pW2", "pR"}, Mine: 1, Blocks: []string{"k1", "k2", "j2"}}},
 		{Name: "c05.amt", Universe: "U-amt", Depth: 4 + d, MaxCost: 1, Orcs: orcs,
